@@ -1,44 +1,100 @@
-//! Code part of the translator: a subset of Rust expressions/statements -> Gallina in the panic monad
-//! `res` of Base.v (arithmetic overflow, `expect`/`unwrap`, indexing are `Panic`).
+//! Code part of the translator: a subset of Rust -> Gallina in the panic monad `res` of Base.v.
 //!
-//! Value encoding: u8/usize/char -> N; bool -> bool; `Level` (repr(transparent) newtype) -> N;
-//! BidiClass -> bclass; Option<T> -> option T; Result<T,E> -> rresult T E; () -> unit;
-//! Ordering -> comparison; slices -> list.  A `&mut self` method returns `res (N * R)`: the new value
-//! of `self.0` and the result.  Every translated function returns in `res`.
+//! Value encoding
+//!   u8                       -> nat, every arithmetic operation checked against 255 (overflow = Panic,
+//!                               which is what a debug build does; a theorem that no Panic is reachable
+//!                               makes debug and release coincide)
+//!   usize, i32, untyped ints -> nat; subtraction below zero = Panic; overflow of the machine word is
+//!                               NOT modelled (it needs more than 2^31 characters; stated in the trusted base)
+//!   char                     -> N (scalar value)
+//!   bool -> bool; `Level` (repr(transparent) newtype over u8) -> nat; BidiClass -> bclass;
+//!   Option<T> -> option T; Result<T,E> -> rresult T E; () -> unit; Ordering -> comparison;
+//!   slices / Vec -> list; unit-like enums of the file -> an Inductive with constructors Enum_Variant.
+//! Functions
+//!   every translated function returns in `res`.  A `&mut self` method of Level returns
+//!   `res (nat * R)` (new self.0, result).  A function with `&mut [T]` parameters returns
+//!   `res (R * (p1 * ... * pn))`: the result and the final contents of those parameters.
+//!   A function generic over `T: TextSource` takes a record `ts : rs_text_source` and its text as `list N`;
+//!   a `D: BidiDataSource` parameter is a record `rs_data_source`.
+//! Two modes
+//!   expression mode: bodies made of let / if / match with `return` only in tail position (level.rs ...);
+//!   flow mode: bodies with `let mut`, assignments, `for` loops, early `return` / `break` / `continue`
+//!   (lib.rs helpers).  Statement lists become computations of `flow` values (Go state | Brk | Cnt | Ret).
 use crate::data::{coq_class, int_consts, parse, Report};
 use std::collections::{BTreeMap, BTreeSet};
 use std::path::Path;
+use syn::visit::Visit;
 use syn::{BinOp, Expr, FnArg, ImplItem, Item, Lit, Pat, Stmt, Type, UnOp};
 
 type R<T> = Result<T, String>;
 
 #[derive(Clone, Debug, PartialEq)]
 enum Ty {
-    Int(u32),
+    U8,
+    Word, // usize, i32, untyped integer
+    Char,
     Bool,
     Level,
     Class,
     Unit,
+    Opt(Box<Ty>),
+    Slice(Box<Ty>),
+    Text,   // &T where T: TextSource
+    Source, // &D where D: BidiDataSource
     Other,
     Unknown,
 }
 
-fn ty_of_type(t: &Type) -> Ty {
+impl Ty {
+    fn is_nat(&self) -> bool {
+        matches!(self, Ty::U8 | Ty::Word | Ty::Level)
+    }
+}
+
+fn generic_kind(g: &syn::Generics, name: &str) -> Option<Ty> {
+    for p in &g.params {
+        if let syn::GenericParam::Type(tp) = p {
+            if tp.ident == name {
+                for b in &tp.bounds {
+                    if let syn::TypeParamBound::Trait(t) = b {
+                        match last_ident(&t.path).as_str() {
+                            "TextSource" => return Some(Ty::Text),
+                            "BidiDataSource" => return Some(Ty::Source),
+                            _ => {}
+                        }
+                    }
+                }
+            }
+        }
+    }
+    None
+}
+
+fn ty_of_type(t: &Type, g: &syn::Generics) -> Ty {
     match t {
-        Type::Reference(r) => ty_of_type(&r.elem),
-        Type::Paren(p) => ty_of_type(&p.elem),
+        Type::Reference(r) => ty_of_type(&r.elem, g),
+        Type::Paren(p) => ty_of_type(&p.elem, g),
         Type::Tuple(t) if t.elems.is_empty() => Ty::Unit,
+        Type::Slice(s) => Ty::Slice(Box::new(ty_of_type(&s.elem, g))),
         Type::Path(p) => {
-            let n = p.path.segments.last().map(|s| s.ident.to_string()).unwrap_or_default();
+            let seg = p.path.segments.last().unwrap();
+            let n = seg.ident.to_string();
             match n.as_str() {
-                "u8" => Ty::Int(8),
-                "u16" => Ty::Int(16),
-                "u32" | "char" => Ty::Int(32),
-                "usize" | "u64" => Ty::Int(64),
+                "u8" => Ty::U8,
+                "usize" | "i32" | "u32" | "u64" | "isize" => Ty::Word,
+                "char" => Ty::Char,
                 "bool" => Ty::Bool,
                 "Level" | "Self" => Ty::Level,
                 "BidiClass" => Ty::Class,
-                _ => Ty::Other,
+                "Option" => {
+                    if let syn::PathArguments::AngleBracketed(a) = &seg.arguments {
+                        if let Some(syn::GenericArgument::Type(t)) = a.args.first() {
+                            return Ty::Opt(Box::new(ty_of_type(t, g)));
+                        }
+                    }
+                    Ty::Other
+                }
+                _ => generic_kind(g, &n).unwrap_or(Ty::Other),
             }
         }
         _ => Ty::Other,
@@ -52,7 +108,7 @@ pub struct FnInfo {
     rust: String,
     has_self: bool,
     mut_self: bool,
-    params: Vec<(String, Ty)>,
+    params: Vec<(String, Ty, bool)>, // name, type, is `&mut` parameter
     ret: Ty,
     item: syn::Block,
 }
@@ -63,17 +119,16 @@ struct FileCtx {
     other_consts: BTreeMap<String, Expr>, // e.g. LTR_LEVEL = Level(0)
     enums: BTreeMap<String, Vec<String>>, // unit-like enums declared in the file
     fns: Vec<FnInfo>,
-    self_is_level: bool,
 }
 
 struct Tr<'a> {
     file: &'a FileCtx,
     done: &'a BTreeMap<(Option<String>, String), String>, // translated callees -> coq name
-    #[allow(dead_code)]
+    all_done: &'a BTreeMap<(String, Option<String>, String), (String, Ty)>, // other files: (stem, label, fn) -> coq name, ret type
     f: &'a FnInfo,
-    locals: Vec<(String, Ty)>,
+    locals: Vec<(String, Ty, bool)>, // name, type, mutable
     fresh: u32,
-    calls: BTreeSet<String>,
+    loops: Vec<Vec<String>>, // state variables of the enclosing loops (innermost last)
 }
 
 fn last_ident(p: &syn::Path) -> String {
@@ -94,6 +149,15 @@ fn is_self(e: &Expr) -> bool {
     matches!(strip(e), Expr::Path(p) if p.path.is_ident("self"))
 }
 
+fn local_name(e: &Expr) -> Option<String> {
+    match strip(e) {
+        Expr::Path(p) if p.path.segments.len() == 1 => Some(last_ident(&p.path)),
+        _ => None,
+    }
+}
+
+type Binds = Vec<(String, String)>;
+
 impl<'a> Tr<'a> {
     fn fresh(&mut self, base: &str) -> String {
         self.fresh += 1;
@@ -104,18 +168,22 @@ impl<'a> Tr<'a> {
         self.locals.iter().rev().find(|x| x.0 == n).map(|x| x.1.clone())
     }
 
+    fn is_mut_local(&self, n: &str) -> bool {
+        self.locals.iter().rev().find(|x| x.0 == n).map(|x| x.2).unwrap_or(false)
+    }
+
     // ---------------------------------------------------------------- types (best effort)
     fn infer(&self, e: &Expr) -> Ty {
         match strip(e) {
             Expr::Lit(l) => match &l.lit {
                 Lit::Int(i) => match i.suffix() {
-                    "u8" => Ty::Int(8),
-                    "usize" => Ty::Int(64),
+                    "u8" => Ty::U8,
+                    "usize" | "i32" | "u32" => Ty::Word,
                     "" => Ty::Unknown,
                     _ => Ty::Other,
                 },
                 Lit::Bool(_) => Ty::Bool,
-                Lit::Char(_) => Ty::Int(32),
+                Lit::Char(_) => Ty::Char,
                 _ => Ty::Other,
             },
             Expr::Path(p) => {
@@ -127,20 +195,27 @@ impl<'a> Tr<'a> {
                     return t;
                 }
                 if self.file.int_consts.contains_key(&n) {
-                    return Ty::Int(8);
+                    return Ty::U8;
                 }
                 if coq_class(&n).is_some() {
                     return Ty::Class;
+                }
+                if n == "None" {
+                    return Ty::Opt(Box::new(Ty::Unknown));
                 }
                 Ty::Unknown
             }
             Expr::Field(f) => {
                 if self.infer(&f.base) == Ty::Level {
-                    Ty::Int(8)
+                    Ty::U8
                 } else {
                     Ty::Unknown
                 }
             }
+            Expr::Index(ix) => match self.infer(&ix.expr) {
+                Ty::Slice(t) => *t,
+                _ => Ty::Unknown,
+            },
             Expr::Binary(b) => match b.op {
                 BinOp::Add(_) | BinOp::Sub(_) | BinOp::Mul(_) | BinOp::Div(_) | BinOp::Rem(_) | BinOp::BitAnd(_)
                 | BinOp::BitOr(_) | BinOp::BitXor(_) => {
@@ -159,17 +234,34 @@ impl<'a> Tr<'a> {
             },
             Expr::MethodCall(m) => {
                 let name = m.method.to_string();
+                match name.as_str() {
+                    "is_none" | "is_some" => return Ty::Bool,
+                    "bidi_class" if self.infer(&m.receiver) == Ty::Source => return Ty::Class,
+                    "len" => return Ty::Word,
+                    _ => {}
+                }
                 if let Some(fi) = self.file.fns.iter().find(|f| f.has_self && f.key.1 == name) {
                     return fi.ret.clone();
+                }
+                if let Some(((_, _, _), (_, t))) = self.all_done.iter().find(|((_, l, n), _)| l.as_deref() == Some("Level") && *n == name) {
+                    if self.infer(&m.receiver) == Ty::Level {
+                        return t.clone();
+                    }
                 }
                 Ty::Unknown
             }
             Expr::Call(c) => {
                 if let Expr::Path(p) = strip(&c.func) {
-                    if last_ident(&p.path) == "Level" && p.path.segments.len() == 1 {
+                    let n = last_ident(&p.path);
+                    if n == "Level" && p.path.segments.len() == 1 {
                         return Ty::Level;
                     }
-                    let n = last_ident(&p.path);
+                    if n == "Some" && c.args.len() == 1 {
+                        return Ty::Opt(Box::new(self.infer(&c.args[0])));
+                    }
+                    if n == "char_len" {
+                        return Ty::Word;
+                    }
                     if let Some(fi) = self.file.fns.iter().find(|f| !f.has_self && f.key.1 == n) {
                         return fi.ret.clone();
                     }
@@ -180,34 +272,48 @@ impl<'a> Tr<'a> {
         }
     }
 
-    fn int_bits(&self, a: &Expr, b: &Expr) -> R<u32> {
+    fn num_ty(&self, a: &Expr, b: &Expr) -> Ty {
         match (self.infer(a), self.infer(b)) {
-            (Ty::Int(n), _) | (_, Ty::Int(n)) => Ok(n),
-            _ => Err("cannot determine the integer width of an arithmetic expression".into()),
+            (Ty::Unknown, Ty::Unknown) => Ty::Word,
+            (Ty::Unknown, t) | (t, Ty::Unknown) => t,
+            (t, _) => t,
         }
     }
 
     // ---------------------------------------------------------------- expressions
     /// Translate [e] to a *pure* Coq term, pushing monadic bindings (name, computation) to [b].
-    fn expr(&mut self, e: &Expr, b: &mut Vec<(String, String)>) -> R<String> {
+    /// [hint]: the type an untyped integer literal should take.
+    fn expr_h(&mut self, e: &Expr, hint: &Ty, b: &mut Binds) -> R<String> {
+        if let Expr::Lit(l) = strip(e) {
+            if let Lit::Int(i) = &l.lit {
+                let v = i.base10_parse::<u64>().map_err(|e| e.to_string())?;
+                let t = match self.infer(e) {
+                    Ty::Unknown => hint.clone(),
+                    t => t,
+                };
+                return Ok(if t == Ty::Char { format!("{}%N", v) } else { format!("{}%nat", v) });
+            }
+        }
+        self.expr(e, b)
+    }
+
+    fn expr(&mut self, e: &Expr, b: &mut Binds) -> R<String> {
         match e {
             Expr::Paren(p) => self.expr(&p.expr, b),
             Expr::Group(g) => self.expr(&g.expr, b),
             Expr::Reference(r) => self.expr(&r.expr, b),
             Expr::Lit(l) => match &l.lit {
-                Lit::Int(i) => Ok(format!("{}%N", i.base10_parse::<u64>().map_err(|e| e.to_string())?)),
+                Lit::Int(i) => Ok(format!("{}%nat", i.base10_parse::<u64>().map_err(|e| e.to_string())?)),
                 Lit::Bool(x) => Ok(if x.value { "true".into() } else { "false".into() }),
                 Lit::Char(c) => Ok(format!("{}%N", c.value() as u32)),
                 _ => Err("unsupported literal".into()),
             },
             Expr::Path(p) => self.path(&p.path),
             Expr::Field(f) => {
-                // self.0 / x.0 on the transparent newtype
                 if let syn::Member::Unnamed(ix) = &f.member {
                     if self.infer(&f.base) == Ty::Level && ix.index == 0 {
                         return self.expr(&f.base, b);
                     }
-                    // tuple projection on a local tuple variable: pair.0 / pair.1 / pair.2 (triples)
                     let base = self.expr(&f.base, b)?;
                     return Ok(match ix.index {
                         0 => format!("(rs_t0 {})", base),
@@ -225,11 +331,8 @@ impl<'a> Tr<'a> {
                     let x = self.expr(&u.expr, b)?;
                     match t {
                         Ty::Bool => Ok(format!("(negb {})", x)),
-                        Ty::Int(n) => Ok(format!("(rs_not {} {})", n, x)),
-                        Ty::Unknown => {
-                            // `!1` next to a u8 operand: the caller supplies the width through `binary`
-                            Err("cannot type the operand of `!`".into())
-                        }
+                        Ty::U8 => Ok(format!("(rs_not8 {})", x)),
+                        Ty::Unknown => Err("cannot type the operand of `!`".into()),
                         _ => Err("`!` on unsupported type".into()),
                     }
                 }
@@ -240,7 +343,17 @@ impl<'a> Tr<'a> {
             Expr::MethodCall(m) => self.method(m, b),
             Expr::Macro(m) => self.mac(&m.mac, b),
             Expr::Tuple(t) if t.elems.is_empty() => Ok("tt".into()),
+            Expr::Tuple(t) => {
+                let mut xs = vec![];
+                for e in &t.elems {
+                    xs.push(self.expr(e, b)?);
+                }
+                Ok(format!("({})", xs.join(", ")))
+            }
             Expr::Index(ix) => {
+                if let Expr::Range(_) = strip(&ix.index) {
+                    return Err("slicing by a range in expression position".into());
+                }
                 let v = self.expr(&ix.expr, b)?;
                 let i = self.expr(&ix.index, b)?;
                 let x = self.fresh("ix");
@@ -248,15 +361,12 @@ impl<'a> Tr<'a> {
                 Ok(x)
             }
             Expr::If(_) | Expr::Match(_) | Expr::Block(_) => {
-                // a sub-computation that is not in tail position: it must not assign to self
                 let c = self.tail(e, false)?;
                 let x = self.fresh("v");
                 b.push((x.clone(), c));
                 Ok(x)
             }
             Expr::Struct(st) => {
-                // the one record the crate's small functions build: BidiMatchedOpeningBracket {opening, is_open}
-                // is the pair (opening, is_open) of the model
                 if last_ident(&st.path) != "BidiMatchedOpeningBracket" || st.rest.is_some() {
                     return Err("struct literal other than BidiMatchedOpeningBracket".into());
                 }
@@ -279,10 +389,6 @@ impl<'a> Tr<'a> {
                     _ => Err("BidiMatchedOpeningBracket literal lacks a field".into()),
                 }
             }
-            Expr::Cast(c) => {
-                // widening casts between unsigned integers / char -> u32 are the identity on N
-                self.expr(&c.expr, b)
-            }
             _ => Err(format!("unsupported expression kind: {}", kind(e))),
         }
     }
@@ -292,13 +398,11 @@ impl<'a> Tr<'a> {
         if p.is_ident("self") {
             return Ok("self_".into());
         }
-        if p.segments.len() == 1 {
-            if self.lookup_local(&n).is_some() {
-                return Ok(coq_ident(&n));
-            }
+        if p.segments.len() == 1 && self.lookup_local(&n).is_some() {
+            return Ok(coq_ident(&n));
         }
         if let Some(v) = self.file.int_consts.get(&n) {
-            return Ok(format!("{}%N", v));
+            return Ok(format!("{}%nat", v));
         }
         if let Some(e) = self.file.other_consts.get(&n) {
             let e = e.clone();
@@ -329,22 +433,9 @@ impl<'a> Tr<'a> {
         Err(format!("unresolved path `{}`", n))
     }
 
-    fn binary(&mut self, bi: &syn::ExprBinary, b: &mut Vec<(String, String)>) -> R<String> {
-        // `x & !1`: give `!lit` the width of the other operand
-        let side = |me: &mut Self, e: &Expr, other: &Expr, b: &mut Vec<(String, String)>| -> R<String> {
-            if let Expr::Unary(u) = strip(e) {
-                if matches!(u.op, UnOp::Not(_)) && me.infer(&u.expr) == Ty::Unknown {
-                    if let Ty::Int(n) = me.infer(other) {
-                        let x = me.expr(&u.expr, b)?;
-                        return Ok(format!("(rs_not {} {})", n, x));
-                    }
-                }
-            }
-            me.expr(e, b)
-        };
+    fn binary(&mut self, bi: &syn::ExprBinary, b: &mut Binds) -> R<String> {
         match bi.op {
             BinOp::And(_) | BinOp::Or(_) => {
-                // short-circuit: the right operand is evaluated only when needed
                 let l = self.expr(&bi.left, b)?;
                 let mut rb = vec![];
                 let r = self.expr(&bi.right, &mut rb)?;
@@ -364,46 +455,73 @@ impl<'a> Tr<'a> {
                 Ok(x)
             }
             BinOp::Add(_) | BinOp::Sub(_) | BinOp::Mul(_) | BinOp::Div(_) | BinOp::Rem(_) => {
-                let bits = self.int_bits(&bi.left, &bi.right)?;
-                let l = side(self, &bi.left, &bi.right, b)?;
-                let r = side(self, &bi.right, &bi.left, b)?;
+                let t = self.num_ty(&bi.left, &bi.right);
+                let l = self.expr_h(&bi.left, &t, b)?;
+                let r = self.expr_h(&bi.right, &t, b)?;
+                let t = if t == Ty::Level { Ty::U8 } else { t };
+                if t == Ty::Word {
+                    if let BinOp::Add(_) = bi.op {
+                        return Ok(format!("({} + {})", l, r)); // machine-word overflow not modelled
+                    }
+                    if let BinOp::Mul(_) = bi.op {
+                        return Ok(format!("({} * {})", l, r));
+                    }
+                }
+                if t != Ty::Word && t != Ty::U8 {
+                    return Err("arithmetic on a type the translator cannot determine".into());
+                }
                 let x = self.fresh("a");
                 let c = match bi.op {
-                    BinOp::Add(_) => format!("rs_add {} {} {}", bits, l, r),
-                    BinOp::Sub(_) => format!("rs_sub {} {}", l, r),
-                    BinOp::Mul(_) => format!("rs_mul {} {} {}", bits, l, r),
-                    BinOp::Div(_) => format!("rs_div {} {}", l, r),
-                    _ => format!("rs_rem {} {}", l, r),
+                    BinOp::Add(_) => format!("rs_add8 {} {}", l, r),
+                    BinOp::Sub(_) => format!("rs_subn {} {}", l, r),
+                    BinOp::Mul(_) => format!("rs_mul8 {} {}", l, r),
+                    BinOp::Div(_) => format!("rs_divn {} {}", l, r),
+                    _ => format!("rs_remn {} {}", l, r),
                 };
                 b.push((x.clone(), c));
                 Ok(x)
             }
             BinOp::BitAnd(_) | BinOp::BitOr(_) | BinOp::BitXor(_) => {
-                if self.infer(&bi.left) == Ty::Bool {
-                    return Err("bitwise operator on bool".into());
+                let t = self.num_ty(&bi.left, &bi.right);
+                if t != Ty::U8 && t != Ty::Level {
+                    return Err("bitwise operator on a type other than u8".into());
                 }
-                let l = side(self, &bi.left, &bi.right, b)?;
-                let r = side(self, &bi.right, &bi.left, b)?;
+                // `x & !1`: `!lit` takes the width of the other operand
+                let side = |me: &mut Self, e: &Expr, b: &mut Binds| -> R<String> {
+                    if let Expr::Unary(u) = strip(e) {
+                        if matches!(u.op, UnOp::Not(_)) && me.infer(&u.expr) == Ty::Unknown {
+                            let x = me.expr_h(&u.expr, &Ty::U8, b)?;
+                            return Ok(format!("(rs_not8 {})", x));
+                        }
+                    }
+                    me.expr_h(e, &Ty::U8, b)
+                };
+                let l = side(self, &bi.left, b)?;
+                let r = side(self, &bi.right, b)?;
                 Ok(match bi.op {
-                    BinOp::BitAnd(_) => format!("(N.land {} {})", l, r),
-                    BinOp::BitOr(_) => format!("(N.lor {} {})", l, r),
-                    _ => format!("(N.lxor {} {})", l, r),
+                    BinOp::BitAnd(_) => format!("(Nat.land {} {})", l, r),
+                    BinOp::BitOr(_) => format!("(Nat.lor {} {})", l, r),
+                    _ => format!("(Nat.lxor {} {})", l, r),
                 })
             }
             BinOp::Eq(_) | BinOp::Ne(_) | BinOp::Lt(_) | BinOp::Le(_) | BinOp::Gt(_) | BinOp::Ge(_) => {
                 let t = match self.infer(&bi.left) {
-                    Ty::Unknown => self.infer(&bi.right),
+                    Ty::Unknown => match self.infer(&bi.right) {
+                        Ty::Unknown => Ty::Word,
+                        t => t,
+                    },
                     t => t,
                 };
-                let l = self.expr(&bi.left, b)?;
-                let r = self.expr(&bi.right, b)?;
-                match (t, &bi.op) {
-                    (Ty::Int(_), BinOp::Eq(_)) | (Ty::Level, BinOp::Eq(_)) => Ok(format!("(N.eqb {} {})", l, r)),
-                    (Ty::Int(_), BinOp::Ne(_)) | (Ty::Level, BinOp::Ne(_)) => Ok(format!("(negb (N.eqb {} {}))", l, r)),
-                    (Ty::Int(_), BinOp::Lt(_)) | (Ty::Level, BinOp::Lt(_)) => Ok(format!("(N.ltb {} {})", l, r)),
-                    (Ty::Int(_), BinOp::Le(_)) | (Ty::Level, BinOp::Le(_)) => Ok(format!("(N.leb {} {})", l, r)),
-                    (Ty::Int(_), BinOp::Gt(_)) | (Ty::Level, BinOp::Gt(_)) => Ok(format!("(N.ltb {} {})", r, l)),
-                    (Ty::Int(_), BinOp::Ge(_)) | (Ty::Level, BinOp::Ge(_)) => Ok(format!("(N.leb {} {})", r, l)),
+                let l = self.expr_h(&bi.left, &t, b)?;
+                let r = self.expr_h(&bi.right, &t, b)?;
+                let m = if t.is_nat() { "Nat" } else { "N" };
+                match (&t, &bi.op) {
+                    (Ty::U8 | Ty::Word | Ty::Level | Ty::Char, BinOp::Eq(_)) => Ok(format!("({}.eqb {} {})", m, l, r)),
+                    (Ty::U8 | Ty::Word | Ty::Level | Ty::Char, BinOp::Ne(_)) => Ok(format!("(negb ({}.eqb {} {}))", m, l, r)),
+                    (Ty::U8 | Ty::Word | Ty::Level | Ty::Char, BinOp::Lt(_)) => Ok(format!("({}.ltb {} {})", m, l, r)),
+                    (Ty::U8 | Ty::Word | Ty::Level | Ty::Char, BinOp::Le(_)) => Ok(format!("({}.leb {} {})", m, l, r)),
+                    (Ty::U8 | Ty::Word | Ty::Level | Ty::Char, BinOp::Gt(_)) => Ok(format!("({}.ltb {} {})", m, r, l)),
+                    (Ty::U8 | Ty::Word | Ty::Level | Ty::Char, BinOp::Ge(_)) => Ok(format!("({}.leb {} {})", m, r, l)),
                     (Ty::Class, BinOp::Eq(_)) => Ok(format!("(ceq {} {})", l, r)),
                     (Ty::Class, BinOp::Ne(_)) => Ok(format!("(negb (ceq {} {}))", l, r)),
                     (Ty::Bool, BinOp::Eq(_)) => Ok(format!("(Bool.eqb {} {})", l, r)),
@@ -414,11 +532,11 @@ impl<'a> Tr<'a> {
         }
     }
 
-    fn args(&mut self, args: &syn::punctuated::Punctuated<Expr, syn::token::Comma>, b: &mut Vec<(String, String)>) -> R<Vec<String>> {
+    fn args(&mut self, args: &syn::punctuated::Punctuated<Expr, syn::token::Comma>, b: &mut Binds) -> R<Vec<String>> {
         args.iter().map(|a| self.expr(a, b)).collect()
     }
 
-    fn call(&mut self, c: &syn::ExprCall, b: &mut Vec<(String, String)>) -> R<String> {
+    fn call(&mut self, c: &syn::ExprCall, b: &mut Binds) -> R<String> {
         let p = match strip(&c.func) {
             Expr::Path(p) => &p.path,
             _ => return Err("call through a non-path".into()),
@@ -436,11 +554,15 @@ impl<'a> Tr<'a> {
                     };
                     return Ok(format!("({} {})", ctor, a));
                 }
-                "Level" if c.args.len() == 1 => return self.expr(&c.args[0], b), // transparent newtype
+                "Level" if c.args.len() == 1 => return self.expr_h(&c.args[0], &Ty::U8, b),
                 _ => {}
             }
         }
-        // struct-literal-like constructor of the bracket record is handled in `expr_struct`; here: functions
+        // T::char_len(c) for the TextSource type parameter
+        if segs.len() == 2 && n == "char_len" && c.args.len() == 1 {
+            let a = self.expr(&c.args[0], b)?;
+            return Ok(format!("(rs_char_len ts {})", a));
+        }
         let key = if segs.len() >= 2 {
             let ty = &segs[segs.len() - 2];
             let ty = if ty == "Self" { "Level".to_string() } else { ty.clone() };
@@ -449,24 +571,27 @@ impl<'a> Tr<'a> {
             (None, n.clone())
         };
         let coq = self.done.get(&key).cloned().ok_or(format!("call to `{}` which is not translated", segs.join("::")))?;
-        self.calls.insert(coq.clone());
         let a = self.args(&c.args, b)?;
         let x = self.fresh("r");
         b.push((x.clone(), format!("{} {}", coq, a.join(" "))));
         Ok(x)
     }
 
-    fn method(&mut self, m: &syn::ExprMethodCall, b: &mut Vec<(String, String)>) -> R<String> {
+    fn method(&mut self, m: &syn::ExprMethodCall, b: &mut Binds) -> R<String> {
         let name = m.method.to_string();
+        let rty = self.infer(&m.receiver);
         match name.as_str() {
             "checked_add" | "checked_sub" if m.args.len() == 1 => {
-                let bits = self.int_bits(&m.receiver, &m.args[0])?;
-                let l = self.expr(&m.receiver, b)?;
-                let r = self.expr(&m.args[0], b)?;
+                let t = self.num_ty(&m.receiver, &m.args[0]);
+                if t != Ty::U8 && t != Ty::Level {
+                    return Err("checked arithmetic on a type other than u8".into());
+                }
+                let l = self.expr_h(&m.receiver, &Ty::U8, b)?;
+                let r = self.expr_h(&m.args[0], &Ty::U8, b)?;
                 return Ok(if name == "checked_add" {
-                    format!("(rs_checked_add {} {} {})", bits, l, r)
+                    format!("(rs_checked_add8 {} {})", l, r)
                 } else {
-                    format!("(rs_checked_sub {} {})", l, r)
+                    format!("(rs_checked_subn {} {})", l, r)
                 });
             }
             "expect" | "unwrap" => {
@@ -480,15 +605,40 @@ impl<'a> Tr<'a> {
                 let d = self.expr(&m.args[0], b)?;
                 return Ok(format!("(opt_or {} {})", l, d));
             }
+            "is_none" if m.args.is_empty() => {
+                let l = self.expr(&m.receiver, b)?;
+                return Ok(format!("(match {} with None => true | Some _ => false end)", l));
+            }
+            "is_some" if m.args.is_empty() => {
+                let l = self.expr(&m.receiver, b)?;
+                return Ok(format!("(match {} with None => false | Some _ => true end)", l));
+            }
+            "len" if m.args.is_empty() && matches!(rty, Ty::Slice(_)) => {
+                let l = self.expr(&m.receiver, b)?;
+                return Ok(format!("(length {})", l));
+            }
+            "bidi_class" if m.args.len() == 1 && rty == Ty::Source => {
+                let l = self.expr(&m.receiver, b)?;
+                let a = self.expr(&m.args[0], b)?;
+                return Ok(format!("(rs_bidi_class {} {})", l, a));
+            }
+            "chars" | "char_indices" | "indices_lengths" if m.args.is_empty() && rty == Ty::Text => {
+                let l = self.expr(&m.receiver, b)?;
+                return Ok(format!("(rs_{} ts {})", name, l));
+            }
             "iter" | "into_iter" | "clone" | "copied" | "cloned" if m.args.is_empty() => return self.expr(&m.receiver, b),
             "any" | "all" if m.args.len() == 1 => {
+                let elem = match self.infer(strip_iter(&m.receiver)) {
+                    Ty::Slice(t) => *t,
+                    _ => Ty::Unknown,
+                };
                 let l = self.expr(&m.receiver, b)?;
                 if let Expr::Closure(cl) = strip(&m.args[0]) {
                     if cl.inputs.len() != 1 {
                         return Err("closure arity".into());
                     }
                     let v = pat_var(&cl.inputs[0])?;
-                    self.locals.push((v.clone(), Ty::Level)); // element type: only used on level slices
+                    self.locals.push((v.clone(), elem, false));
                     let body = self.tail(&cl.body, false);
                     self.locals.pop();
                     let x = self.fresh("q");
@@ -506,7 +656,7 @@ impl<'a> Tr<'a> {
                     let (pat, vars) = self.pattern(&cl.inputs[0])?;
                     let n0 = self.locals.len();
                     for v in vars {
-                        self.locals.push((v, Ty::Int(32)));
+                        self.locals.push((v, Ty::Char, false));
                     }
                     let body = self.tail(&cl.body, false);
                     self.locals.truncate(n0);
@@ -518,28 +668,33 @@ impl<'a> Tr<'a> {
             }
             _ => {}
         }
-        // a method of the same file
+        // a method of the same file, or a Level method from level.rs
         let cands: Vec<&FnInfo> = self.file.fns.iter().filter(|f| f.has_self && f.key.1 == name).collect();
-        if cands.len() == 1 {
+        let coq = if cands.len() == 1 {
             let fi = cands[0];
             if fi.mut_self {
                 return Err("call to a `&mut self` method in expression position".into());
             }
-            let coq = self.done.get(&fi.key).cloned().ok_or(format!("call to `{}` which is not translated", fi.rust))?;
-            self.calls.insert(coq.clone());
-            let recv = self.expr(&m.receiver, b)?;
-            let a = self.args(&m.args, b)?;
-            let x = self.fresh("r");
-            b.push((x.clone(), format!("{} {} {}", coq, recv, a.join(" ")).trim_end().to_string()));
-            return Ok(x);
-        }
-        Err(format!("unsupported method `{}`", name))
+            self.done.get(&fi.key).cloned().ok_or(format!("call to `{}` which is not translated", fi.rust))?
+        } else if rty == Ty::Level {
+            self.all_done
+                .iter()
+                .find(|((s, l, n), _)| s == "level" && l.as_deref() == Some("Level") && *n == name)
+                .map(|(_, (c, _))| c.clone())
+                .ok_or(format!("call to Level::{} which is not translated", name))?
+        } else {
+            return Err(format!("unsupported method `{}`", name));
+        };
+        let recv = self.expr(&m.receiver, b)?;
+        let a = self.args(&m.args, b)?;
+        let x = self.fresh("r");
+        b.push((x.clone(), format!("{} {} {}", coq, recv, a.join(" ")).trim_end().to_string()));
+        Ok(x)
     }
 
-    fn mac(&mut self, m: &syn::Macro, b: &mut Vec<(String, String)>) -> R<String> {
+    fn mac(&mut self, m: &syn::Macro, b: &mut Binds) -> R<String> {
         let n = last_ident(&m.path);
         if n == "matches" {
-            // matches!(expr, pat)
             let parsed: MatchesArgs = syn::parse2(m.tokens.clone()).map_err(|e| format!("matches!: {}", e))?;
             let s = self.expr(&parsed.scrutinee, b)?;
             let (p, vars) = self.pattern(&parsed.pat)?;
@@ -557,7 +712,6 @@ impl<'a> Tr<'a> {
             Pat::Wild(_) => Ok(("_".into(), vec![])),
             Pat::Ident(i) => {
                 let n = i.ident.to_string();
-                // an identifier pattern may be a unit constructor in scope (None, class names, Ordering)
                 if n == "None" {
                     return Ok(("None".into(), vec![]));
                 }
@@ -576,12 +730,8 @@ impl<'a> Tr<'a> {
             }
             Pat::Reference(r) => self.pattern(&r.pat),
             Pat::Paren(r) => self.pattern(&r.pat),
-            Pat::Path(pp) => {
-                let n = last_ident(&pp.path);
-                let t = self.path(&pp.path)?;
-                let _ = n;
-                Ok((t, vec![]))
-            }
+            Pat::Type(t) => self.pattern(&t.pat),
+            Pat::Path(pp) => Ok((self.path(&pp.path)?, vec![])),
             Pat::TupleStruct(ts) => {
                 let n = last_ident(&ts.path);
                 let ctor = match n.as_str() {
@@ -618,7 +768,7 @@ impl<'a> Tr<'a> {
                 Ok((ps.join(" | "), vec![]))
             }
             Pat::Lit(l) => match &l.lit {
-                Lit::Int(i) => Ok((format!("{}%N", i.base10_parse::<u64>().map_err(|e| e.to_string())?), vec![])),
+                Lit::Int(i) => Ok((format!("{}%nat", i.base10_parse::<u64>().map_err(|e| e.to_string())?), vec![])),
                 Lit::Bool(x) => Ok(((if x.value { "true" } else { "false" }).into(), vec![])),
                 _ => Err("unsupported literal pattern".into()),
             },
@@ -626,9 +776,9 @@ impl<'a> Tr<'a> {
         }
     }
 
-    // ---------------------------------------------------------------- computations
-    /// [e] in tail position -> a Coq term of type `res T` (`res (N * T)` when [st]: the function is a
-    /// `&mut self` method and the current value of self.0 is threaded as `self_`).
+    // ---------------------------------------------------------------- expression mode
+    /// [e] in tail position -> a Coq term of type `res T` (`res (nat * T)` when [st]: a `&mut self` method,
+    /// the current value of self.0 threaded as `self_`).
     fn tail(&mut self, e: &Expr, st: bool) -> R<String> {
         match e {
             Expr::Paren(p) => self.tail(&p.expr, st),
@@ -636,7 +786,7 @@ impl<'a> Tr<'a> {
             Expr::Block(bl) => self.block(&bl.block, st),
             Expr::If(i) => {
                 if let Expr::Let(_) = strip(&i.cond) {
-                    return Err("if let".into());
+                    return Err("if let in expression mode".into());
                 }
                 let mut b = vec![];
                 let c = self.expr(&i.cond, &mut b)?;
@@ -650,15 +800,16 @@ impl<'a> Tr<'a> {
             Expr::Match(m) => {
                 let mut b = vec![];
                 let s = self.expr(&m.expr, &mut b)?;
+                let pty = self.payload_ty(&m.expr);
                 let mut arms = vec![];
                 for a in &m.arms {
                     if a.guard.is_some() {
-                        return Err("match guard".into());
+                        return Err("match guard in expression mode".into());
                     }
                     let (p, vars) = self.pattern(&a.pat)?;
                     let n0 = self.locals.len();
                     for v in vars {
-                        self.locals.push((v, Ty::Int(self.scrutinee_bits(&m.expr))));
+                        self.locals.push((v, pty.clone(), false));
                     }
                     let body = self.tail(&a.body, st);
                     self.locals.truncate(n0);
@@ -679,14 +830,20 @@ impl<'a> Tr<'a> {
         }
     }
 
-    fn scrutinee_bits(&self, e: &Expr) -> u32 {
-        // the payload of `x.checked_add(y)` has the width of x; anything else: 8 (only level.rs uses this)
+    /// type of the payload bound by Some(x)/Ok(x) patterns on [e]
+    fn payload_ty(&self, e: &Expr) -> Ty {
         if let Expr::MethodCall(m) = strip(e) {
-            if let Ty::Int(n) = self.infer(&m.receiver) {
-                return n;
+            if m.method == "checked_add" || m.method == "checked_sub" {
+                return Ty::U8;
+            }
+            if m.method == "binary_search_by" {
+                return Ty::Word;
             }
         }
-        8
+        match self.infer(e) {
+            Ty::Opt(t) => *t,
+            _ => Ty::Unknown,
+        }
     }
 
     fn ret(&self, t: &str, st: bool) -> String {
@@ -715,28 +872,25 @@ impl<'a> Tr<'a> {
                 if init.diverge.is_some() {
                     return Err("let-else".into());
                 }
+                if matches!(strip_pat_type(&l.pat), Pat::Ident(i) if i.mutability.is_some()) {
+                    return Err("let mut in expression mode".into());
+                }
                 let mut b = vec![];
                 let t = self.expr(&init.expr, &mut b)?;
                 let ty = self.infer(&init.expr);
                 let (p, vars) = self.pattern(strip_pat_type(&l.pat))?;
                 for v in vars {
-                    self.locals.push((v, if ty == Ty::Unknown { Ty::Int(32) } else { ty.clone() }));
+                    self.locals.push((v, ty.clone(), false));
                 }
                 let k = self.stmts(rest, st)?;
                 Ok(wrap(&b, &format!("let '{} := {} in {}", p, t, k)))
             }
             Stmt::Expr(e, semi) => {
-                if rest.is_empty() && semi.is_none() {
+                if rest.is_empty() && (semi.is_none() || matches!(e, Expr::Return(_))) {
                     return self.tail(e, st);
-                }
-                if rest.is_empty() {
-                    if let Expr::Return(_) = e {
-                        return self.tail(e, st);
-                    }
                 }
                 match e {
                     Expr::Assign(a) => {
-                        // self.0 = e;
                         let ok = matches!(strip(&a.left), Expr::Field(f) if is_self(&f.base));
                         if !ok || !st {
                             return Err("assignment to something other than self.0 of a &mut self method".into());
@@ -746,7 +900,7 @@ impl<'a> Tr<'a> {
                         let k = self.stmts(rest, st)?;
                         Ok(wrap(&b, &format!("let self_ := {} in {}", t, k)))
                     }
-                    Expr::ForLoop(fl) => self.for_loop(fl, rest, st),
+                    Expr::ForLoop(fl) => self.for_return_loop(fl, rest, st),
                     Expr::Macro(m) if last_ident(&m.mac.path).starts_with("debug_assert") => self.stmts(rest, st),
                     _ => Err(format!("unsupported statement: {}", kind(e))),
                 }
@@ -756,8 +910,8 @@ impl<'a> Tr<'a> {
         }
     }
 
-    /// `for pat in e { lets; if c { lets; return r; } }  rest`  ->  rs_for_return
-    fn for_loop(&mut self, fl: &syn::ExprForLoop, rest: &[Stmt], st: bool) -> R<String> {
+    /// `for pat in e { lets; if c { lets; return r; } }  rest`  ->  rs_for_return  (no mutable state)
+    fn for_return_loop(&mut self, fl: &syn::ExprForLoop, rest: &[Stmt], st: bool) -> R<String> {
         if st {
             return Err("loop in a &mut self method".into());
         }
@@ -766,7 +920,7 @@ impl<'a> Tr<'a> {
         let (p, vars) = self.pattern(&fl.pat)?;
         let n0 = self.locals.len();
         for v in vars {
-            self.locals.push((v, Ty::Unknown));
+            self.locals.push((v, Ty::Unknown, false));
         }
         let body = self.loop_body(&fl.body.stmts);
         self.locals.truncate(n0);
@@ -775,7 +929,6 @@ impl<'a> Tr<'a> {
         Ok(wrap(&b, &format!("rs_for_return (fun '{} => {}) {} ({})", p, body, coll, k)))
     }
 
-    /// body of a for loop as a computation of `option R`: Some r = `return r`, None = next iteration
     fn loop_body(&mut self, ss: &[Stmt]) -> R<String> {
         if ss.is_empty() {
             return Ok("Ok None".into());
@@ -788,7 +941,7 @@ impl<'a> Tr<'a> {
                 let t = self.expr(&init.expr, &mut b)?;
                 let (p, vars) = self.pattern(strip_pat_type(&l.pat))?;
                 for v in vars {
-                    self.locals.push((v, Ty::Int(32)));
+                    self.locals.push((v, Ty::Char, false));
                 }
                 let k = self.loop_body(rest)?;
                 Ok(wrap(&b, &format!("let '{} := {} in {}", p, t, k)))
@@ -806,11 +959,532 @@ impl<'a> Tr<'a> {
                 let t = self.loop_body(&i.then_branch.stmts);
                 self.locals.truncate(n0);
                 let k = self.loop_body(rest)?;
-                // then-branch either returns (Some) or falls through to the rest of the body
                 Ok(wrap(&b, &format!("if {} then (o <- {} ;; match o with Some r => Ok (Some r) | None => {} end) else {}", c, paren(&t?), k, k)))
             }
             _ => Err("unsupported statement in a for loop".into()),
         }
+    }
+
+    // ---------------------------------------------------------------- flow mode
+    fn mut_in_scope(&self) -> Vec<String> {
+        let mut v = vec![];
+        for (n, _, m) in &self.locals {
+            if *m && !v.contains(n) {
+                v.push(n.clone());
+            }
+        }
+        v
+    }
+
+    /// variables of the current scope that [ss] may assign (ordered by declaration)
+    fn writes_block(&self, ss: &[Stmt]) -> Vec<String> {
+        let mut w = Writes { set: BTreeSet::new() };
+        for s in ss {
+            w.visit_stmt(s);
+        }
+        self.mut_in_scope().into_iter().filter(|n| w.set.contains(n)).collect()
+    }
+
+    fn writes_expr(&self, e: &Expr) -> Vec<String> {
+        let mut w = Writes { set: BTreeSet::new() };
+        w.visit_expr(e);
+        self.mut_in_scope().into_iter().filter(|n| w.set.contains(n)).collect()
+    }
+
+    fn tuple(&self, vars: &[String]) -> String {
+        if vars.is_empty() {
+            "tt".into()
+        } else {
+            format!("({})", vars.iter().map(|v| coq_ident(v)).collect::<Vec<_>>().join(", "))
+        }
+    }
+
+    /// the value a `return v` of the function yields: with `&mut` parameters their final contents ride along
+    fn ret_value(&self, v: &str) -> String {
+        let muts: Vec<String> = self.f.params.iter().filter(|p| p.2).map(|p| coq_ident(&p.0)).collect();
+        if muts.is_empty() {
+            v.to_string()
+        } else {
+            format!("({}, ({}))", v, muts.join(", "))
+        }
+    }
+
+    /// Statement list in flow mode: a computation of type `res (flow G B R)`.
+    /// [fin]: the variables whose current values are the payload of `Go` on normal completion.
+    fn flow(&mut self, ss: &[Stmt], fin: &[String]) -> R<String> {
+        if ss.is_empty() {
+            return Ok(format!("Ok (Go {})", self.tuple(fin)));
+        }
+        let (s, rest) = (&ss[0], &ss[1..]);
+        match s {
+            Stmt::Local(l) => {
+                let (mutable, pat) = match strip_pat_type(&l.pat) {
+                    Pat::Ident(i) => (i.mutability.is_some(), strip_pat_type(&l.pat)),
+                    p => (false, p),
+                };
+                let declared = match &l.pat {
+                    Pat::Type(t) => Some(ty_of_type(&t.ty, &syn::Generics::default())),
+                    _ => None,
+                };
+                let init = l.init.as_ref().ok_or("let without initialiser")?;
+                if init.diverge.is_some() {
+                    return Err("let-else".into());
+                }
+                let mut b = vec![];
+                let hint = declared.clone().unwrap_or(Ty::Word);
+                let t = self.expr_h(&init.expr, &hint, &mut b)?;
+                let ty = match declared {
+                    Some(t) => t,
+                    None => match self.infer(&init.expr) {
+                        Ty::Unknown => Ty::Word,
+                        t => t,
+                    },
+                };
+                let (p, vars) = self.pattern(pat)?;
+                for v in vars {
+                    self.locals.push((v, ty.clone(), mutable));
+                }
+                let k = self.flow(rest, fin)?;
+                Ok(wrap(&b, &format!("let '{} := {} in {}", p, t, k)))
+            }
+            Stmt::Macro(m) => self.flow_macro(&m.mac, rest, fin),
+            Stmt::Expr(e, _) => self.flow_stmt(e, rest, fin),
+            _ => Err("unsupported statement".into()),
+        }
+    }
+
+    fn flow_macro(&mut self, m: &syn::Macro, rest: &[Stmt], fin: &[String]) -> R<String> {
+        let n = last_ident(&m.path);
+        if n.starts_with("debug_assert") {
+            return self.flow(rest, fin);
+        }
+        if n == "assert_eq" || n == "assert" {
+            let args: AssertArgs = syn::parse2(m.tokens.clone()).map_err(|e| format!("{}!: {}", n, e))?;
+            let mut b = vec![];
+            let c = if n == "assert" {
+                self.expr(&args.a, &mut b)?
+            } else {
+                let rhs = args.b.as_ref().ok_or("assert_eq! needs two arguments")?;
+                // only the shape `assert_eq!(x, None)`
+                if matches!(strip(rhs), Expr::Path(p) if last_ident(&p.path) == "None") {
+                    let l = self.expr(&args.a, &mut b)?;
+                    format!("(match {} with None => true | Some _ => false end)", l)
+                } else {
+                    return Err("assert_eq! on values other than `x, None`".into());
+                }
+            };
+            let k = self.flow(rest, fin)?;
+            return Ok(wrap(&b, &format!("_ <- rs_assert {} ;; {}", c, k)));
+        }
+        Err(format!("unsupported macro statement `{}!`", n))
+    }
+
+    /// rejoin after a compound statement that may assign [w] and may escape
+    fn rejoin(&mut self, w: &[String], comp: &str, rest: &[Stmt], fin: &[String]) -> R<String> {
+        let k = self.flow(rest, fin)?;
+        Ok(format!(
+            "f <- {} ;; match f with Go {} => {} | Brk b => Ok (Brk b) | Cnt b => Ok (Cnt b) | Ret r => Ok (Ret r) end",
+            paren(comp),
+            if w.is_empty() { "_".to_string() } else { format!("({})", w.iter().map(|v| coq_ident(v)).collect::<Vec<_>>().join(", ")) },
+            k
+        ))
+    }
+
+    fn flow_block(&mut self, bl: &syn::Block, fin: &[String]) -> R<String> {
+        let n0 = self.locals.len();
+        let r = self.flow(&bl.stmts, fin);
+        self.locals.truncate(n0);
+        r
+    }
+
+    /// an expression used as a statement body (match arm, else branch)
+    fn flow_expr_as_block(&mut self, e: &Expr, fin: &[String]) -> R<String> {
+        match e {
+            Expr::Block(b) => self.flow_block(&b.block, fin),
+            Expr::Tuple(t) if t.elems.is_empty() => Ok(format!("Ok (Go {})", self.tuple(fin))),
+            _ => {
+                let st = Stmt::Expr(e.clone(), Some(Default::default()));
+                let n0 = self.locals.len();
+                let r = self.flow(std::slice::from_ref(&st), fin);
+                self.locals.truncate(n0);
+                r
+            }
+        }
+    }
+
+    fn flow_stmt(&mut self, e: &Expr, rest: &[Stmt], fin: &[String]) -> R<String> {
+        match e {
+            Expr::Paren(p) => self.flow_stmt(&p.expr, rest, fin),
+            Expr::Return(r) => {
+                let mut b = vec![];
+                let v = match &r.expr {
+                    Some(e) => self.expr(e, &mut b)?,
+                    None => "tt".into(),
+                };
+                Ok(wrap(&b, &format!("Ok (Ret {})", paren(&self.ret_value(&v)))))
+            }
+            Expr::Break(br) => {
+                if br.expr.is_some() || br.label.is_some() {
+                    return Err("labelled break / break with value".into());
+                }
+                let l = self.loops.last().ok_or("break outside a loop")?.clone();
+                Ok(format!("Ok (Brk {})", self.tuple(&l)))
+            }
+            Expr::Continue(c) => {
+                if c.label.is_some() {
+                    return Err("labelled continue".into());
+                }
+                let l = self.loops.last().ok_or("continue outside a loop")?.clone();
+                Ok(format!("Ok (Cnt {})", self.tuple(&l)))
+            }
+            Expr::Assign(a) => {
+                // x = e;   |   v[i] = e;
+                match strip(&a.left) {
+                    Expr::Index(ix) => {
+                        let v = local_name(&ix.expr).ok_or("indexed assignment to a non-variable")?;
+                        if !self.is_mut_local(&v) {
+                            return Err("indexed assignment to an immutable variable".into());
+                        }
+                        let mut b = vec![];
+                        let i = self.expr(&ix.index, &mut b)?;
+                        let x = self.expr(&a.right, &mut b)?;
+                        b.push((coq_ident(&v), format!("rs_upd {} {} {}", coq_ident(&v), i, x)));
+                        let k = self.flow(rest, fin)?;
+                        Ok(wrap(&b, &k))
+                    }
+                    _ => {
+                        let v = local_name(&a.left).ok_or("assignment to something other than a local variable")?;
+                        if !self.is_mut_local(&v) {
+                            return Err(format!("assignment to `{}` which is not a mutable local", v));
+                        }
+                        let ty = self.lookup_local(&v).unwrap_or(Ty::Word);
+                        let mut b = vec![];
+                        let x = self.expr_h(&a.right, &ty, &mut b)?;
+                        let k = self.flow(rest, fin)?;
+                        Ok(wrap(&b, &format!("let {} := {} in {}", coq_ident(&v), x, k)))
+                    }
+                }
+            }
+            Expr::Binary(bi) if matches!(bi.op, BinOp::AddAssign(_) | BinOp::SubAssign(_)) => {
+                let v = local_name(&bi.left).ok_or("compound assignment to something other than a local variable")?;
+                if !self.is_mut_local(&v) {
+                    return Err(format!("assignment to `{}` which is not a mutable local", v));
+                }
+                let ty = self.lookup_local(&v).unwrap_or(Ty::Word);
+                let mut b = vec![];
+                let r = self.expr_h(&bi.right, &ty, &mut b)?;
+                let cv = coq_ident(&v);
+                match (&bi.op, &ty) {
+                    (BinOp::AddAssign(_), Ty::U8 | Ty::Level) => b.push((cv.clone(), format!("rs_add8 {} {}", cv, r))),
+                    (BinOp::AddAssign(_), _) => b.push((cv.clone(), format!("Ok ({} + {})", cv, r))),
+                    (_, _) => b.push((cv.clone(), format!("rs_subn {} {}", cv, r))),
+                }
+                let k = self.flow(rest, fin)?;
+                Ok(wrap(&b, &k))
+            }
+            Expr::If(i) => {
+                let w = self.writes_expr(e);
+                let comp = self.flow_if(i, &w)?;
+                self.rejoin(&w, &comp, rest, fin)
+            }
+            Expr::Match(m) => {
+                let w = self.writes_expr(e);
+                let comp = self.flow_match(m, &w)?;
+                self.rejoin(&w, &comp, rest, fin)
+            }
+            Expr::Block(bl) => {
+                let w = self.writes_expr(e);
+                let comp = self.flow_block(&bl.block, &w)?;
+                self.rejoin(&w, &comp, rest, fin)
+            }
+            Expr::ForLoop(fl) => self.flow_for(fl, rest, fin),
+            Expr::Macro(m) => self.flow_macro(&m.mac, rest, fin),
+            Expr::Tuple(t) if t.elems.is_empty() => self.flow(rest, fin),
+            _ => Err(format!("unsupported statement: {}", kind(e))),
+        }
+    }
+
+    fn flow_if(&mut self, i: &syn::ExprIf, w: &[String]) -> R<String> {
+        if let Expr::Let(l) = strip(&i.cond) {
+            // if let PAT = e { A } else { B }
+            let mut b = vec![];
+            let s = self.expr(&l.expr, &mut b)?;
+            let pty = self.payload_ty(&l.expr);
+            let (p, vars) = self.pattern(&l.pat)?;
+            let n0 = self.locals.len();
+            for v in vars {
+                self.locals.push((v, if pty == Ty::Unknown { Ty::Word } else { pty.clone() }, false));
+            }
+            let t = self.flow_block(&i.then_branch, w);
+            self.locals.truncate(n0);
+            let el = match &i.else_branch {
+                Some((_, e)) => self.flow_expr_as_block(e, w)?,
+                None => format!("Ok (Go {})", self.tuple(w)),
+            };
+            return Ok(wrap(&b, &format!("match {} with {} => {} | _ => {} end", s, p, t?, el)));
+        }
+        let mut b = vec![];
+        let c = self.expr(&i.cond, &mut b)?;
+        let t = self.flow_block(&i.then_branch, w)?;
+        let el = match &i.else_branch {
+            Some((_, e)) => match &**e {
+                Expr::If(i2) => self.flow_if(i2, w)?,
+                e => self.flow_expr_as_block(e, w)?,
+            },
+            None => format!("Ok (Go {})", self.tuple(w)),
+        };
+        Ok(wrap(&b, &format!("if {} then {} else {}", c, t, el)))
+    }
+
+    fn flow_match(&mut self, m: &syn::ExprMatch, w: &[String]) -> R<String> {
+        let mut b = vec![];
+        let s = self.expr(&m.expr, &mut b)?;
+        let pty = self.payload_ty(&m.expr);
+        let guarded = m.arms.iter().any(|a| a.guard.is_some());
+        if !guarded {
+            let mut arms = vec![];
+            for a in &m.arms {
+                let (p, vars) = self.pattern(&a.pat)?;
+                let n0 = self.locals.len();
+                for v in vars {
+                    self.locals.push((v, pty.clone(), false));
+                }
+                let body = self.flow_expr_as_block(&a.body, w);
+                self.locals.truncate(n0);
+                arms.push(format!("| {} => {}", p, body?));
+            }
+            return Ok(wrap(&b, &format!("match {} with {} end", s, arms.join(" "))));
+        }
+        // with guards: first arm whose (binder-free) pattern matches and whose guard holds
+        let sv = self.fresh("m");
+        let mut chain = format!("Ok (Go {})", self.tuple(w)); // unreachable when the last arm is `_`
+        for a in m.arms.iter().rev() {
+            let (p, vars) = self.pattern(&a.pat)?;
+            if !vars.is_empty() {
+                return Err("match with guards and binders".into());
+            }
+            let body = self.flow_expr_as_block(&a.body, w)?;
+            let test = if p == "_" { "true".to_string() } else { format!("(match {} with {} => true | _ => false end)", sv, p) };
+            match &a.guard {
+                None => {
+                    chain = if p == "_" { body } else { format!("if {} then {} else {}", test, body, chain) };
+                }
+                Some((_, g)) => {
+                    let mut gb = vec![];
+                    let gc = self.expr(g, &mut gb)?;
+                    if !gb.is_empty() {
+                        return Err("match guard with effects".into());
+                    }
+                    chain = format!("if ({} && {}) then {} else {}", test, gc, body, chain);
+                }
+            }
+        }
+        Ok(wrap(&b, &format!("let {} := {} in {}", sv, s, chain)))
+    }
+
+    fn flow_for(&mut self, fl: &syn::ExprForLoop, rest: &[Stmt], fin: &[String]) -> R<String> {
+        if fl.label.is_some() {
+            return Err("labelled loop".into());
+        }
+        // `for x in &mut v[a..b] { *x = e; }`  ->  range assignment
+        if let Some(r) = self.range_assign(fl)? {
+            let k = self.flow(rest, fin)?;
+            return Ok(format!("{}{}", r, k));
+        }
+        let mut b = vec![];
+        let coll = self.expr(&fl.expr, &mut b)?;
+        let elem = match self.infer(strip_iter(&fl.expr)) {
+            Ty::Slice(t) => *t,
+            _ => Ty::Unknown,
+        };
+        let w = self.writes_block(&fl.body.stmts);
+        let (p, vars) = self.pattern(&fl.pat)?;
+        let n0 = self.locals.len();
+        let is_indices = matches!(strip(&fl.expr), Expr::MethodCall(m) if m.method == "char_indices");
+        for (k, v) in vars.into_iter().enumerate() {
+            let t = if is_indices {
+                if k == 0 {
+                    Ty::Word
+                } else {
+                    Ty::Char
+                }
+            } else if elem != Ty::Unknown {
+                elem.clone()
+            } else if matches!(strip(&fl.expr), Expr::MethodCall(m) if m.method == "chars") {
+                Ty::Char
+            } else {
+                Ty::Unknown
+            };
+            self.locals.push((v, t, false));
+        }
+        self.loops.push(w.clone());
+        let body = self.flow(&fl.body.stmts, &w);
+        self.loops.pop();
+        self.locals.truncate(n0);
+        let body = body?;
+        let k = self.flow(rest, fin)?;
+        let vars_t = if w.is_empty() { "_".to_string() } else { format!("({})", w.iter().map(|v| coq_ident(v)).collect::<Vec<_>>().join(", ")) };
+        // the state binder carries its type, so that elaboration of the body does not depend on inference order
+        let st_ty = if w.is_empty() {
+            "unit".to_string()
+        } else {
+            w.iter().map(|v| ty_coq(&self.lookup_local(v).unwrap_or(Ty::Unknown))).collect::<Vec<_>>().join(" * ")
+        };
+        let st_pat = if w.is_empty() { "(_ : unit)".to_string() } else { format!("'({} : {})", vars_t, st_ty) };
+        Ok(wrap(
+            &b,
+            &format!(
+                "f <- rs_loop (fun {} '{} => {}) {} {} ;; match f with Go {} => {} | Ret r => Ok (Ret r) | _ => Panic site_flow end",
+                st_pat,
+                p,
+                body,
+                self.tuple(&w),
+                coll,
+                vars_t,
+                k
+            ),
+        ))
+    }
+
+    fn range_assign(&mut self, fl: &syn::ExprForLoop) -> R<Option<String>> {
+        // for x in &mut v[a..b] { *x = e; }   /  &mut v[a..]
+        let (v, range) = match &*fl.expr {
+            Expr::Reference(r) if r.mutability.is_some() => match strip(&r.expr) {
+                Expr::Index(ix) => match (local_name(&ix.expr), strip(&ix.index)) {
+                    (Some(v), Expr::Range(rg)) => (v, rg.clone()),
+                    _ => return Ok(None),
+                },
+                _ => return Ok(None),
+            },
+            _ => return Ok(None),
+        };
+        let x = match &*fl.pat {
+            Pat::Ident(i) => i.ident.to_string(),
+            _ => return Ok(None),
+        };
+        if fl.body.stmts.len() != 1 {
+            return Ok(None);
+        }
+        let rhs = match &fl.body.stmts[0] {
+            Stmt::Expr(Expr::Assign(a), _) => match &*a.left {
+                Expr::Unary(u) if matches!(u.op, UnOp::Deref(_)) && local_name(&u.expr).as_deref() == Some(&x) => &a.right,
+                _ => return Ok(None),
+            },
+            _ => return Ok(None),
+        };
+        if !self.is_mut_local(&v) {
+            return Err("range assignment to an immutable variable".into());
+        }
+        if !matches!(range.limits, syn::RangeLimits::HalfOpen(_)) {
+            return Err("inclusive range in a range assignment".into());
+        }
+        let mut b = vec![];
+        let from = match &range.start {
+            Some(e) => self.expr_h(e, &Ty::Word, &mut b)?,
+            None => "0%nat".into(),
+        };
+        let cv = coq_ident(&v);
+        let comp = match &range.end {
+            Some(e) => {
+                let to = self.expr_h(e, &Ty::Word, &mut b)?;
+                let val = self.expr(rhs, &mut b)?;
+                format!("rs_set_range {} {} {} {}", cv, from, to, val)
+            }
+            None => {
+                let val = self.expr(rhs, &mut b)?;
+                format!("rs_set_from {} {} {}", cv, from, val)
+            }
+        };
+        b.push((cv, comp));
+        let mut s = String::new();
+        for (x, c) in &b {
+            s.push_str(&format!("{} <- {} ;; ", x, paren(c)));
+        }
+        Ok(Some(s))
+    }
+}
+
+fn ty_coq(t: &Ty) -> String {
+    match t {
+        Ty::U8 | Ty::Word | Ty::Level => "nat".into(),
+        Ty::Char => "N".into(),
+        Ty::Bool => "bool".into(),
+        Ty::Class => "bclass".into(),
+        Ty::Unit => "unit".into(),
+        Ty::Opt(t) => format!("option ({})", ty_coq(t)),
+        Ty::Slice(t) => format!("list ({})", ty_coq(t)),
+        Ty::Text => "list N".into(),
+        Ty::Source => "rs_data_source".into(),
+        _ => "_".into(),
+    }
+}
+
+fn strip_iter(e: &Expr) -> &Expr {
+    match strip(e) {
+        Expr::MethodCall(m) if matches!(m.method.to_string().as_str(), "iter" | "into_iter" | "copied" | "cloned") => strip_iter(&m.receiver),
+        e => e,
+    }
+}
+
+/// variables assigned anywhere inside a statement / expression (syntactic)
+struct Writes {
+    set: BTreeSet<String>,
+}
+impl<'ast> Visit<'ast> for Writes {
+    fn visit_expr_assign(&mut self, a: &'ast syn::ExprAssign) {
+        match strip(&a.left) {
+            Expr::Index(ix) => {
+                if let Some(v) = local_name(&ix.expr) {
+                    self.set.insert(v);
+                }
+            }
+            l => {
+                if let Some(v) = local_name(l) {
+                    self.set.insert(v);
+                }
+            }
+        }
+        syn::visit::visit_expr_assign(self, a);
+    }
+    fn visit_expr_binary(&mut self, b: &'ast syn::ExprBinary) {
+        if matches!(b.op, BinOp::AddAssign(_) | BinOp::SubAssign(_) | BinOp::MulAssign(_) | BinOp::BitOrAssign(_) | BinOp::BitAndAssign(_)) {
+            if let Some(v) = local_name(&b.left) {
+                self.set.insert(v);
+            }
+        }
+        syn::visit::visit_expr_binary(self, b);
+    }
+    fn visit_expr_for_loop(&mut self, fl: &'ast syn::ExprForLoop) {
+        // for x in &mut v[..] { *x = .. } writes v
+        if let Expr::Reference(r) = &*fl.expr {
+            if r.mutability.is_some() {
+                if let Expr::Index(ix) = strip(&r.expr) {
+                    if let Some(v) = local_name(&ix.expr) {
+                        self.set.insert(v);
+                    }
+                }
+            }
+        }
+        syn::visit::visit_expr_for_loop(self, fl);
+    }
+}
+
+/// does the body need flow mode?
+struct NeedsFlow {
+    yes: bool,
+}
+impl<'ast> Visit<'ast> for NeedsFlow {
+    fn visit_local(&mut self, l: &'ast syn::Local) {
+        if matches!(strip_pat_type(&l.pat), Pat::Ident(i) if i.mutability.is_some()) {
+            self.yes = true;
+        }
+        syn::visit::visit_local(self, l);
+    }
+    fn visit_expr_break(&mut self, _: &'ast syn::ExprBreak) {
+        self.yes = true;
+    }
+    fn visit_expr_continue(&mut self, _: &'ast syn::ExprContinue) {
+        self.yes = true;
     }
 }
 
@@ -825,6 +1499,25 @@ impl syn::parse::Parse for MatchesArgs {
         let pat = Pat::parse_multi_with_leading_vert(input)?;
         let _ = input.parse::<Option<syn::Token![,]>>();
         Ok(MatchesArgs { scrutinee, pat })
+    }
+}
+
+struct AssertArgs {
+    a: Expr,
+    b: Option<Expr>,
+}
+impl syn::parse::Parse for AssertArgs {
+    fn parse(input: syn::parse::ParseStream) -> syn::Result<Self> {
+        let a: Expr = input.parse()?;
+        let mut b = None;
+        if input.parse::<Option<syn::Token![,]>>()?.is_some() && !input.is_empty() {
+            b = Some(input.parse()?);
+            // trailing message arguments are ignored
+            while !input.is_empty() {
+                let _: proc_macro2::TokenTree = input.parse()?;
+            }
+        }
+        Ok(AssertArgs { a, b })
     }
 }
 
@@ -845,7 +1538,6 @@ fn pat_var(p: &Pat) -> R<String> {
 }
 
 fn balanced_outer(t: &str) -> bool {
-    // does the opening parenthesis at position 0 close at the very end?
     if !(t.starts_with('(') && t.ends_with(')')) {
         return false;
     }
@@ -904,6 +1596,8 @@ fn kind(e: &Expr) -> &'static str {
         Expr::Range(_) => "range",
         Expr::Let(_) => "let condition",
         Expr::Try(_) => "? operator",
+        Expr::MethodCall(_) => "method call as a statement",
+        Expr::Call(_) => "call as a statement",
         _ => "other",
     }
 }
@@ -913,14 +1607,7 @@ fn collect(repo: &Path, rel: &str) -> R<FileCtx> {
     let f = parse(repo, rel)?;
     let stem = Path::new(rel).file_stem().unwrap().to_string_lossy().to_string();
     let stem = if stem == "mod" { "char_data".to_string() } else { stem };
-    let mut ctx = FileCtx {
-        stem: stem.clone(),
-        int_consts: int_consts(&f),
-        other_consts: BTreeMap::new(),
-        enums: BTreeMap::new(),
-        fns: vec![],
-        self_is_level: rel.ends_with("level.rs"),
-    };
+    let mut ctx = FileCtx { stem: stem.clone(), int_consts: int_consts(&f), other_consts: BTreeMap::new(), enums: BTreeMap::new(), fns: vec![] };
     for it in &f.items {
         match it {
             Item::Const(c) => {
@@ -984,13 +1671,14 @@ fn fn_info(stem: &str, label: Option<&str>, name: &str, sig: &syn::Signature, bl
                     Pat::Ident(i) => i.ident.to_string(),
                     _ => "_".to_string(),
                 };
-                params.push((n, ty_of_type(&t.ty)));
+                let is_mut_ref = matches!(&*t.ty, Type::Reference(r) if r.mutability.is_some());
+                params.push((n, ty_of_type(&t.ty, &sig.generics), is_mut_ref));
             }
         }
     }
     let ret = match &sig.output {
         syn::ReturnType::Default => Ty::Unit,
-        syn::ReturnType::Type(_, t) => ty_of_type(t),
+        syn::ReturnType::Type(_, t) => ty_of_type(t, &sig.generics),
     };
     let (coq, rust) = match label {
         Some(l) => (format!("src_{}_{}_{}", stem, l, name), format!("{}::{}::{}", stem, l, name)),
@@ -999,7 +1687,7 @@ fn fn_info(stem: &str, label: Option<&str>, name: &str, sig: &syn::Signature, bl
     FnInfo { key: (label.map(|s| s.to_string()), name.to_string()), coq, rust, has_self, mut_self, params, ret, item: block.clone() }
 }
 
-pub const FILES: [&str; 4] = ["src/level.rs", "src/char_data/mod.rs", "src/prepare.rs", "src/implicit.rs"];
+pub const FILES: [&str; 5] = ["src/level.rs", "src/char_data/mod.rs", "src/prepare.rs", "src/implicit.rs", "src/lib.rs"];
 
 /// the functions the framework wants translated (others in these files are ignored silently):
 /// file stem, Self/trait label ("" = free function), function
@@ -1030,27 +1718,34 @@ pub const FUNCS: &[(&str, &str, &str)] = &[
     ("prepare", "", "removed_by_x9"),
     ("prepare", "", "not_removed_by_x9"),
     ("implicit", "", "is_NI"),
+    ("lib", "", "para_direction"),
+    ("lib", "", "get_base_direction_impl"),
+    ("lib", "", "reorder_levels"),
 ];
 
 pub fn translate_all(repo: &Path, report: &mut Report) -> String {
     let mut out = String::new();
-    out.push_str("(* GENERATED by rs2v from the working tree's src/{level,char_data/mod,prepare,implicit}.rs — do not edit.\n   One Definition per translated Rust function, in the panic monad of Base.v (see RsPrelude.v). *)\n");
-    out.push_str("From BidiVerif Require Import Base ConstsGen TablesGen RsPrelude.\nLocal Open Scope N_scope.\nLocal Open Scope bool_scope.\n\n");
+    out.push_str("(* GENERATED by rs2v from the working tree's src/{level,char_data/mod,prepare,implicit,lib}.rs — do not edit.\n   One Definition per translated Rust function, in the panic monad of Base.v (see RsPrelude.v). *)\n");
+    out.push_str("From BidiVerif Require Import Base ConstsGen TablesGen RsPrelude.\nLocal Open Scope bool_scope.\n\n");
+    let mut all_done: BTreeMap<(String, Option<String>, String), (String, Ty)> = BTreeMap::new();
     for rel in FILES {
+        let stem0 = if rel.contains("char_data") { "char_data".to_string() } else { Path::new(rel).file_stem().unwrap().to_string_lossy().to_string() };
         let ctx = match collect(repo, rel) {
             Ok(c) => c,
             Err(e) => {
-                for (stem, l, n) in FUNCS {
-                    if rel.contains(stem) || (*stem == "char_data" && rel.contains("char_data")) {
-                        report.skipped.push((format!("{}::{}::{}", stem, l, n), format!("file does not parse: {}", e)));
-                    }
+                for (s, l, n) in FUNCS.iter().filter(|(s, _, _)| *s == stem0) {
+                    report.skipped.push((format!("{}::{}::{}", s, l, n), format!("file does not parse: {}", e)));
                 }
                 continue;
             }
         };
-        for (en, vars) in &ctx.enums {
-            let used = FUNCS.iter().any(|(s, _, _)| *s == ctx.stem) && ctx.self_is_level;
-            if used {
+        let wanted: Vec<&FnInfo> = ctx
+            .fns
+            .iter()
+            .filter(|f| FUNCS.iter().any(|(s, l, n)| *s == ctx.stem && f.key.1 == *n && f.key.0.as_deref().unwrap_or("") == *l))
+            .collect();
+        if !wanted.is_empty() {
+            for (en, vars) in &ctx.enums {
                 out.push_str(&format!(
                     "Inductive {} : Set := {}.\n",
                     en,
@@ -1058,45 +1753,24 @@ pub fn translate_all(repo: &Path, report: &mut Report) -> String {
                 ));
             }
         }
-        let mut done: BTreeMap<(Option<String>, String), String> = BTreeMap::new();
-        let wanted: Vec<&FnInfo> = ctx
-            .fns
-            .iter()
-            .filter(|f| {
-                FUNCS.iter().any(|(s, l, n)| *s == ctx.stem && f.key.1 == *n && f.key.0.as_deref().unwrap_or("") == *l)
-            })
-            .collect();
         for (s, l, n) in FUNCS.iter().filter(|(s, _, _)| *s == ctx.stem) {
             if !wanted.iter().any(|f| f.key.1 == *n && f.key.0.as_deref().unwrap_or("") == *l) {
-                report.skipped.push((format!("{}::{}::{}", s, l, n), "function not found in the source".into()));
+                let rust = if l.is_empty() { format!("{}::{}", s, n) } else { format!("{}::{}::{}", s, l, n) };
+                report.skipped.push((rust, "function not found in the source".into()));
             }
         }
-        // several passes so that callees defined later in the file are picked up
+        let mut done: BTreeMap<(Option<String>, String), String> = BTreeMap::new();
         let mut pending: Vec<&FnInfo> = wanted.clone();
         let mut last_err: BTreeMap<String, String> = BTreeMap::new();
         loop {
             let mut progress = false;
             let mut next = vec![];
             for f in pending {
-                let mut tr = Tr { file: &ctx, done: &done, f, locals: f.params.clone(), fresh: 0, calls: BTreeSet::new() };
-                let body = tr.block(&f.item, f.mut_self);
-                match body {
-                    Ok(b) => {
-                        let mut ps = String::new();
-                        if f.has_self {
-                            ps.push_str(" (self_ : N)");
-                        }
-                        for (n, t) in &f.params {
-                            let ct = match t {
-                                Ty::Int(_) | Ty::Level => "N",
-                                Ty::Bool => "bool",
-                                Ty::Class => "bclass",
-                                _ => "_",
-                            };
-                            ps.push_str(&format!(" ({} : {})", coq_ident(n), ct));
-                        }
-                        out.push_str(&format!("(* {} *)\nDefinition {}{} :=\n  {}.\n\n", f.rust, f.coq, ps, b));
+                match translate_fn(&ctx, &done, &all_done, f) {
+                    Ok(def) => {
+                        out.push_str(&def);
                         done.insert(f.key.clone(), f.coq.clone());
+                        all_done.insert((ctx.stem.clone(), f.key.0.clone(), f.key.1.clone()), (f.coq.clone(), f.ret.clone()));
                         report.translated.push((f.rust.clone(), f.coq.clone()));
                         progress = true;
                     }
@@ -1114,7 +1788,72 @@ pub fn translate_all(repo: &Path, report: &mut Report) -> String {
         for f in pending {
             report.skipped.push((f.rust.clone(), last_err.get(&f.rust).cloned().unwrap_or_default()));
         }
-        let _ = &ctx.self_is_level;
     }
     out
+}
+
+fn translate_fn(
+    ctx: &FileCtx,
+    done: &BTreeMap<(Option<String>, String), String>,
+    all_done: &BTreeMap<(String, Option<String>, String), (String, Ty)>,
+    f: &FnInfo,
+) -> R<String> {
+    let mut tr = Tr {
+        file: ctx,
+        done,
+        all_done,
+        f,
+        locals: f.params.iter().map(|(n, t, m)| (n.clone(), t.clone(), *m)).collect(),
+        fresh: 0,
+        loops: vec![],
+    };
+    let mut nf = NeedsFlow { yes: f.params.iter().any(|p| p.2) };
+    nf.visit_block(&f.item);
+    let flow_mode = nf.yes && !f.mut_self;
+    let body = if flow_mode {
+        // the trailing expression is the function's value: make it an explicit `return`
+        let mut ss: Vec<Stmt> = f.item.stmts.clone();
+        let tail_expr = match ss.last() {
+            Some(Stmt::Expr(e, None)) if !matches!(e, Expr::If(_) | Expr::Match(_) | Expr::ForLoop(_) | Expr::Block(_)) => Some(e.clone()),
+            _ => None,
+        };
+        if tail_expr.is_some() {
+            ss.pop();
+        }
+        let ret_stmt: Stmt = Stmt::Expr(
+            Expr::Return(syn::ExprReturn { attrs: vec![], return_token: Default::default(), expr: tail_expr.map(Box::new) }),
+            Some(Default::default()),
+        );
+        ss.push(ret_stmt);
+        let b = tr.flow(&ss, &[])?;
+        format!("f <- {} ;; rs_unflow f", paren(&b))
+    } else {
+        tr.block(&f.item, f.mut_self)?
+    };
+    let mut ps = String::new();
+    let generic_text = f.params.iter().any(|p| p.1 == Ty::Text) || body.contains("rs_char_len ts");
+    if generic_text {
+        ps.push_str(" (ts : rs_text_source)");
+    }
+    if f.has_self {
+        ps.push_str(" (self_ : nat)");
+    }
+    for (n, t, _) in &f.params {
+        let ct = match t {
+            Ty::U8 | Ty::Word | Ty::Level => "nat".to_string(),
+            Ty::Char => "N".to_string(),
+            Ty::Bool => "bool".to_string(),
+            Ty::Class => "bclass".to_string(),
+            Ty::Text => "list N".to_string(),
+            Ty::Source => "rs_data_source".to_string(),
+            Ty::Slice(e) => match **e {
+                Ty::Level | Ty::U8 | Ty::Word => "list nat".to_string(),
+                Ty::Class => "list bclass".to_string(),
+                _ => "_".to_string(),
+            },
+            _ => "_".to_string(),
+        };
+        ps.push_str(&format!(" ({} : {})", coq_ident(n), ct));
+    }
+    Ok(format!("(* {}{} *)\nDefinition {}{} :=\n  {}.\n\n", f.rust, if flow_mode { "  [flow mode]" } else { "" }, f.coq, ps, body))
 }
